@@ -22,7 +22,7 @@ from cidersim.prng import Digest, Rng, derive
 
 LEVEL = "exploration"
 PROP = "C16"
-BUDGET = {"quick": 170, "thorough": 1500}
+BUDGET = {"quick": 170, "thorough": 1800}
 CASE_TIMEOUT = 900
 EPS = 1e-9  # numerical_epsilon documented in MOLGP
 
@@ -821,7 +821,7 @@ def warm(args):
 
 
 def plan(tier, seed, args):
-    n = args.cases if args.cases is not None else (140 if tier == "quick" else 4000)
+    n = args.cases if args.cases is not None else (140 if tier == "quick" else 30000)
     every = 8 if tier == "quick" else 12
     return [{"kind": "history", "seed": derive(seed, PROP, i) % (10**9), "restart": i % every == 0} for i in range(n)]
 
